@@ -9,6 +9,7 @@ mod c03;
 mod hist;
 mod c01;
 mod eng;
+mod engev;
 mod c15;
 mod c14;
 mod c02;
@@ -37,6 +38,7 @@ fn main() {
         "c03" => c03::main(rest),
         "c01" => c01::main(rest),
         "eng" => eng::main(rest),
+        "engev" => engev::main(rest),
         "c15" => c15::main15(rest),
         "c16" => c15::main16(rest),
         "c14" => c14::main(rest),
